@@ -88,8 +88,13 @@ static inline uint32_t u32_max(uint32_t a, uint32_t b) {
     return (a > b) ? a : b;
 }
 
-static uint32_t round_up_to_multiple(uint32_t x, uint32_t m) {
-    return ((x + m - 1) / m) * m;
+static int32_t round_up_to_multiple(uint32_t x, uint32_t m, uint32_t * y) {
+    uint64_t r = (((uint64_t) x + m - 1) / m) * m;
+    if (r > UINT32_MAX) {
+        return JLS_ERROR_PARAMETER_INVALID;
+    }
+    *y = (uint32_t) r;
+    return 0;
 }
 
 int32_t jls_core_f64_buf_alloc(size_t length, struct jls_core_f64_buf_s ** buf) {
@@ -192,6 +197,7 @@ static void signal_def_defaults(struct jls_signal_def_s * def) {
         case 4:  d = &SIGNAL_4_DEFAULTS; break;
         case 8:  d = &SIGNAL_8_DEFAULTS; break;
         case 16: d = &SIGNAL_16_DEFAULTS; break;
+        case 24: d = &SIGNAL_32_DEFAULTS; break;
         case 32: d = &SIGNAL_32_DEFAULTS; break;
         case 64: d = &SIGNAL_64_DEFAULTS; break;
         default: return;
@@ -211,17 +217,17 @@ static void signal_def_defaults(struct jls_signal_def_s * def) {
 int32_t jls_core_signal_def_align(struct jls_signal_def_s * def) {
     signal_def_defaults(def);
     uint8_t sample_size = jls_datatype_parse_size(def->data_type);
-    uint32_t samples_per_data_multiple = (SAMPLE_SIZE_BYTES_MAX * 8) / sample_size;
+    uint32_t samples_per_data_multiple = (24 == sample_size) ? 32 : (SAMPLE_SIZE_BYTES_MAX * 8) / sample_size;
 
     uint32_t sample_decimate_factor = u32_max(def->sample_decimate_factor, SAMPLE_DECIMATE_FACTOR_MIN);
-    sample_decimate_factor = round_up_to_multiple(sample_decimate_factor, samples_per_data_multiple);
+    ROE(round_up_to_multiple(sample_decimate_factor, samples_per_data_multiple, &sample_decimate_factor));
 
     uint32_t samples_per_data = u32_max(def->samples_per_data, SAMPLES_PER_DATA_MIN);
     uint32_t entries_per_summary = u32_max(def->entries_per_summary, ENTRIES_PER_SUMMARY_MIN);
     uint32_t summary_decimate_factor = u32_max(def->summary_decimate_factor, SUMMARY_DECIMATE_FACTOR_MIN);
 
-    entries_per_summary = round_up_to_multiple(entries_per_summary, summary_decimate_factor);
-    samples_per_data = round_up_to_multiple(samples_per_data, sample_decimate_factor);
+    ROE(round_up_to_multiple(entries_per_summary, summary_decimate_factor, &entries_per_summary));
+    ROE(round_up_to_multiple(samples_per_data, sample_decimate_factor, &samples_per_data));
     uint32_t entries_per_data = samples_per_data / sample_decimate_factor;
 
     while (entries_per_summary != ((entries_per_summary / entries_per_data) * entries_per_data)) {
